@@ -39,7 +39,12 @@ package driver
 // Unexported identifiers used: extractKeyWithIndex, publicKeyToAddress, dbConnectionURL,
 // decryptBlobWithPassword, msgpackDecode, PTMaxKeyIdx, SQLiteWallet.{dbPath,masterEncryptionKey}.
 //
-// Mutants (bin/mut, quick tier): see checks.d/C46.json / final report.
+// Mutants (bin/mut on daemon/kmd/wallet/driver/sqlite.go, quick tier, all DETECTED):
+//   generateKeyTxLocked stores highestIndex+1 instead of the index reached after skipping
+//     imported keys (seen by ImportKey(D1), GenerateKey, DeleteKey(D2), GenerateKey -> D2 again)
+//   DeleteKey checks the password after the DELETE statement
+//   generateKeyTxLocked's "already present" test ignores imported keys (key_idx IS NOT NULL)
+//   CheckPassword's cached-hash comparison accepts every password
 
 import (
 	"bytes"
